@@ -935,6 +935,7 @@ class Sem:
             if is_try(n):
                 return
             prev = []
+            prev_guarded = []      # (pattern formula, guard formula) of earlier guarded arms: not both held
             for a in n["arms"]:
                 conds = []
                 alts = pat_alts(a["pat"])
@@ -942,10 +943,14 @@ class Sem:
                     conds.append((self._is(n["scrut"], [a["pat"]], frame), True))
                 for p in prev:
                     conds.append((self._is(n["scrut"], [p], frame), False))
+                for pf, gf in prev_guarded:
+                    conds.append((f_and([pf, gf]), False))
                 apc = pc + tuple(conds)
                 if "guard" in a:
                     yield from self._visit(a["guard"], apc, frame, in_closure, in_loop)
-                    apc = apc + ((self.formula(a["guard"], frame), True),)
+                    gf = self.formula(a["guard"], frame)
+                    apc = apc + ((gf, True),)
+                    prev_guarded.append((self._is(n["scrut"], [a["pat"]], frame) if not any(is_catch_all(x) for x in alts) else ("true",), gf))
                 else:
                     if not any(is_catch_all(x) for x in alts):
                         prev.append(a["pat"])
@@ -1324,6 +1329,21 @@ def admitted_tuples(pc, preds, universes):
             return False
         return None
 
+    def akey(a):
+        if a.kind == "is":
+            return ("is", tuple(id(v.node) for v in a.scruts), tuple(tuple(x) for x in a.alts))
+        if a.kind == "cmp":
+            return ("cmp", a.op, id(a.l.node), id(a.r.node))
+        return (a.kind, id(a.node))
+    # atoms the path condition asserts outright: inside a compound formula the same test has that value
+    known = {}
+    for f0, pol0 in pc:
+        g = f0
+        while g[0] == "not":
+            g, pol0 = g[1], not pol0
+        if g[0] == "atom":
+            known[akey(g[1])] = pol0
+
     def ev(f, t):
         k = f[0]
         if k == "true":
@@ -1331,7 +1351,8 @@ def admitted_tuples(pc, preds, universes):
         if k == "false":
             return False
         if k == "atom":
-            return atom_val(f[1], t)
+            v = atom_val(f[1], t)
+            return known.get(akey(f[1])) if v is None else v
         if k == "not":
             v = ev(f[1], t)
             return None if v is None else (not v)
